@@ -64,6 +64,9 @@ func (l *stubLedger) put(b *blk) {
 	l.byID[string(b.id)] = b
 }
 
+// putSide stores a block that is not on the main chain: found by id, never by height
+func (l *stubLedger) putSide(b *blk) { l.byID[string(b.id)] = b }
+
 func (l *stubLedger) GetConsensusConf() ([]byte, error) { return nil, nil }
 func (l *stubLedger) QueryBlock(id []byte) (ledger.BlockHandle, error) {
 	if b, ok := l.byID[string(id)]; ok {
